@@ -340,12 +340,14 @@ func (p *parser) readString() (string, error) {
 					if b == '"' {
 						return buf.String(), nil
 					}
+					// Two quotes. What follows is looked at again, it can
+					// be the start of an escape sequence.
 					buf.WriteByte('"')
 					buf.WriteByte('"')
-					buf.WriteByte(b)
+					p.putBack(b)
 				} else {
 					buf.WriteByte('"')
-					buf.WriteByte(b)
+					p.putBack(b)
 				}
 			case '\\':
 				var r rune
